@@ -4,7 +4,7 @@ SEED=$1; PROP=$2; TIER=${3:-quick}
 cd /verif || exit 2
 if ! git -C /repo diff --quiet; then echo "/repo has uncommitted changes; refusing"; exit 2; fi
 trap 'git -C /repo checkout -- . ; git -C /repo clean -fdq' EXIT
-git -C /repo apply seeded/$SEED/patch.diff || { echo "patch does not apply"; exit 3; }
+git -C /repo apply /verif/seeded/$SEED/patch.diff || { echo "patch does not apply"; exit 3; }
 VERIF_NOEVIDENCE=1 ./check $PROP $TIER > /tmp/seedcheck.$SEED.$PROP.log 2>&1
 RC=$?
 grep -E "^VIOLATION|signature:|^KNOWN|^INCONCLUSIVE" /tmp/seedcheck.$SEED.$PROP.log | head -8
